@@ -69,6 +69,127 @@ func init() {
 			return &Sc{e.vc.define("popc", e.ar.idxSort(), e.popcount(args[0].(*Sc).T, 64))}
 		},
 	}
+	// ---- time: time.Time is modelled as mathematical unix nanoseconds ----------
+	i64 := types.Typ[types.Int64]
+	toI64 := func(e *Engine, m string) SV { // math Int -> int64 value in the current mode
+		if e.ar.mode == ModeBV {
+			return &Sc{e.vc.define("t64", "(_ BitVec 64)", fmt.Sprintf("((_ int2bv 64) %s)", m))}
+		}
+		return &Sc{e.vc.define("t64", "Int", e.ar.wrap(m, 64, true))}
+	}
+	fromI64 := func(e *Engine, v SV) string { return e.ar.ToMathInt(v.(*Sc).T, 64, true) }
+	timeNote := func(e *Engine) {
+		e.vc.usedExt["time.Time modelled as mathematical unix nanoseconds; time.Now() returns non-decreasing instants in [0, 2^62) ns"] = true
+	}
+	floorDiv := func(m string, d int64) string { return fmt.Sprintf("(div %s %d)", m, d) }
+	mkUnixLike := func(d int64) intrinsic {
+		return func(e *Engine, fr *Frame, st *State, fn *ssa.Function, args []SV, resT types.Type, pos token.Pos) SV {
+			timeNote(e)
+			return toI64(e, floorDiv(args[0].(*Sc).T, d))
+		}
+	}
+	intrinsics["time.Now"] = func(e *Engine, fr *Frame, st *State, fn *ssa.Function, args []SV, resT types.Type, pos token.Pos) SV {
+		timeNote(e)
+		n := e.vc.declare("now", "Int")
+		prev, ok := st.ghost["now"]
+		if !ok {
+			prev = "0"
+		}
+		e.vc.assume("true", fmt.Sprintf("(and (<= %s %s) (< %s 4611686018427387904))", prev, n, n))
+		st.ghost["now"] = n
+		return &Sc{n}
+	}
+	intrinsics["time.Time.Unix"] = mkUnixLike(1000000000)
+	intrinsics["time.Time.UnixMilli"] = mkUnixLike(1000000)
+	intrinsics["time.Time.UnixMicro"] = mkUnixLike(1000)
+	intrinsics["time.Time.UnixNano"] = mkUnixLike(1)
+	intrinsics["time.Time.Sub"] = func(e *Engine, fr *Frame, st *State, fn *ssa.Function, args []SV, resT types.Type, pos token.Pos) SV {
+		timeNote(e)
+		// Go saturates; inside int64 range the difference is exact
+		d := fmt.Sprintf("(- %s %s)", args[0].(*Sc).T, args[1].(*Sc).T)
+		sat := fmt.Sprintf("(ite (> %s 9223372036854775807) 9223372036854775807 (ite (< %s (- 9223372036854775808)) (- 9223372036854775808) %s))", d, d, d)
+		return toI64(e, sat)
+	}
+	intrinsics["time.Since"] = func(e *Engine, fr *Frame, st *State, fn *ssa.Function, args []SV, resT types.Type, pos token.Pos) SV {
+		now := intrinsics["time.Now"](e, fr, st, fn, nil, nil, pos).(*Sc).T
+		d := fmt.Sprintf("(- %s %s)", now, args[0].(*Sc).T)
+		sat := fmt.Sprintf("(ite (> %s 9223372036854775807) 9223372036854775807 (ite (< %s (- 9223372036854775808)) (- 9223372036854775808) %s))", d, d, d)
+		return toI64(e, sat)
+	}
+	intrinsics["time.Until"] = func(e *Engine, fr *Frame, st *State, fn *ssa.Function, args []SV, resT types.Type, pos token.Pos) SV {
+		now := intrinsics["time.Now"](e, fr, st, fn, nil, nil, pos).(*Sc).T
+		d := fmt.Sprintf("(- %s %s)", args[0].(*Sc).T, now)
+		sat := fmt.Sprintf("(ite (> %s 9223372036854775807) 9223372036854775807 (ite (< %s (- 9223372036854775808)) (- 9223372036854775808) %s))", d, d, d)
+		return toI64(e, sat)
+	}
+	intrinsics["time.Time.Add"] = func(e *Engine, fr *Frame, st *State, fn *ssa.Function, args []SV, resT types.Type, pos token.Pos) SV {
+		timeNote(e)
+		return &Sc{e.vc.define("tadd", "Int", fmt.Sprintf("(+ %s %s)", args[0].(*Sc).T, fromI64(e, args[1])))}
+	}
+	cmpT := func(op string) intrinsic {
+		return func(e *Engine, fr *Frame, st *State, fn *ssa.Function, args []SV, resT types.Type, pos token.Pos) SV {
+			timeNote(e)
+			return &Sc{fmt.Sprintf("(%s %s %s)", op, args[0].(*Sc).T, args[1].(*Sc).T)}
+		}
+	}
+	intrinsics["time.Time.After"] = cmpT(">")
+	intrinsics["time.Time.Before"] = cmpT("<")
+	intrinsics["time.Time.Equal"] = cmpT("=")
+	intrinsics["time.Time.Compare"] = func(e *Engine, fr *Frame, st *State, fn *ssa.Function, args []SV, resT types.Type, pos token.Pos) SV {
+		a, b := args[0].(*Sc).T, args[1].(*Sc).T
+		return &Sc{ite(fmt.Sprintf("(< %s %s)", a, b), e.ar.ConstI(-1, 64, true), ite(fmt.Sprintf("(> %s %s)", a, b), e.ar.ConstI(1, 64, true), e.ar.ConstI(0, 64, true)))}
+	}
+	intrinsics["time.Time.IsZero"] = func(e *Engine, fr *Frame, st *State, fn *ssa.Function, args []SV, resT types.Type, pos token.Pos) SV {
+		timeNote(e)
+		return &Sc{fmt.Sprintf("(= %s %s)", args[0].(*Sc).T, zeroTimeNs)}
+	}
+	roundLike := func(round bool) intrinsic {
+		return func(e *Engine, fr *Frame, st *State, fn *ssa.Function, args []SV, resT types.Type, pos token.Pos) SV {
+			timeNote(e)
+			t := args[0].(*Sc).T
+			d := fromI64(e, args[1])
+			// multiples of d counted from the zero time (year 1), as package time documents
+			abs := fmt.Sprintf("(- %s %s)", t, zeroTimeNs)
+			r := e.vc.define("trem", "Int", fmt.Sprintf("(mod %s %s)", abs, d))
+			var res string
+			if round {
+				res = fmt.Sprintf("(ite (< (+ %s %s) %s) (- %s %s) (+ %s (- %s %s)))", r, r, d, t, r, t, d, r)
+			} else {
+				res = fmt.Sprintf("(- %s %s)", t, r)
+			}
+			return &Sc{e.vc.define("tround", "Int", fmt.Sprintf("(ite (<= %s 0) %s %s)", d, t, res))}
+		}
+	}
+	intrinsics["time.Time.Round"] = roundLike(true)
+	intrinsics["time.Time.Truncate"] = roundLike(false)
+	intrinsics["time.Unix"] = func(e *Engine, fr *Frame, st *State, fn *ssa.Function, args []SV, resT types.Type, pos token.Pos) SV {
+		timeNote(e)
+		return &Sc{e.vc.define("tunix", "Int", fmt.Sprintf("(+ (* %s 1000000000) %s)", fromI64(e, args[0]), fromI64(e, args[1])))}
+	}
+	intrinsics["time.UnixMilli"] = func(e *Engine, fr *Frame, st *State, fn *ssa.Function, args []SV, resT types.Type, pos token.Pos) SV {
+		timeNote(e)
+		return &Sc{e.vc.define("tunix", "Int", fmt.Sprintf("(* %s 1000000)", fromI64(e, args[0])))}
+	}
+	intrinsics["time.UnixMicro"] = func(e *Engine, fr *Frame, st *State, fn *ssa.Function, args []SV, resT types.Type, pos token.Pos) SV {
+		timeNote(e)
+		return &Sc{e.vc.define("tunix", "Int", fmt.Sprintf("(* %s 1000)", fromI64(e, args[0])))}
+	}
+	durDiv := func(d int64) intrinsic {
+		return func(e *Engine, fr *Frame, st *State, fn *ssa.Function, args []SV, resT types.Type, pos token.Pos) SV {
+			w, s, _ := intInfo(i64)
+			t, err := e.ar.BinOp(token.QUO, args[0].(*Sc).T, e.ar.ConstI(d, 64, true), w, s)
+			if err != nil {
+				panic(engErr(err.Error()))
+			}
+			return &Sc{e.vc.define("dur", e.ar.intSort(64), t)}
+		}
+	}
+	intrinsics["time.Duration.Milliseconds"] = durDiv(1000000)
+	intrinsics["time.Duration.Microseconds"] = durDiv(1000)
+	intrinsics["time.Duration.Nanoseconds"] = durDiv(1)
+	intrinsics["time.Time.Format"] = freshStr
+	intrinsics["time.Time.String"] = freshStr
+	intrinsics["time.Duration.String"] = freshStr
 	intrinsicPrefixes = map[string]intrinsic{
 		logPkg: noop,
 	}
